@@ -149,27 +149,93 @@ def coq_sources(root):
     return sorted(res)
 
 
-def coq_sync():
-    """Make COQ a usable build tree (copy of the sources for alt repos), regenerate _CoqProject."""
+COQ_WARN = "-notation-overridden,-deprecated-hint-without-locality,-deprecated-instance-without-locality,-ambiguous-paths"
+
+
+def _import_dirs(root, group):
+    """top-level directories of coq/ that the files of `group` import (transitively), incl. the group itself"""
+    seen, todo = [], [group]
+    tops = {d for d in os.listdir(root) if os.path.isdir(os.path.join(root, d))}
+    while todo:
+        g = todo.pop()
+        if g in seen or g not in tops:
+            continue
+        seen.append(g)
+        for rel in coq_sources(os.path.join(root, g)):
+            try:
+                txt = open(os.path.join(root, g, rel)).read()
+            except OSError:
+                continue
+            for m in re.finditer(r"\bOG\.([A-Za-z0-9_]+)\.|From\s+OG\s+Require\s+(?:Import|Export)?([^.]*(?:\.[A-Za-z0-9_]+)*[^.]*)\.", txt):
+                if m.group(1):
+                    todo.append(m.group(1))
+                if m.group(2):
+                    for w in re.findall(r"([A-Za-z0-9_]+)\.[A-Za-z0-9_]+", m.group(2)):
+                        todo.append(w)
+    return sorted(seen)
+
+
+def coq_sync(group=None):
+    """Make COQ a usable build tree (copy of the sources for alt repos); write the _CoqProject / Makefile of `group`
+    (a top-level directory of coq/, plus Base and whatever it imports) or of the whole tree (group None).
+    Returns (makefile name, list of groups covered)."""
     if COQ != COQSRC:
         os.makedirs(COQ, exist_ok=True)
-        sh(["rsync", "-a", "--exclude", "Gen_*.v", "--exclude", "Gen_*.vo", "--exclude", "Gen_*.glob",
-            COQSRC + "/", COQ + "/"])
-    files = coq_sources(COQ)
-    proj = "-Q . OG\n-arg -w -arg -notation-overridden,-deprecated-hint-without-locality,-deprecated-instance-without-locality,-ambiguous-paths\n" + "\n".join(files) + "\n"
-    if write_if_changed(os.path.join(COQ, "_CoqProject"), proj) or not os.path.exists(os.path.join(COQ, "Makefile")):
-        rc, out = sh(["coq_makefile", "-f", "_CoqProject", "-o", "Makefile"], cwd=COQ)
+        with Lock(os.path.join(BUILD, "coq-sync.lock")):
+            sh(["rsync", "-a", "--exclude", "Gen_*.v", "--exclude", "Gen_*.vo", "--exclude", "Gen_*.glob",
+                "--exclude", "_CoqProject*", "--exclude", "Makefile*", "--exclude", ".Makefile*",
+                COQSRC + "/", COQ + "/"])
+    if group is None:
+        groups = sorted(d for d in os.listdir(COQ) if os.path.isdir(os.path.join(COQ, d)))
+        suffix = ""
+    else:
+        groups = sorted(set(_import_dirs(COQ, group)) | ({"Base"} if os.path.isdir(os.path.join(COQ, "Base")) else set()))
+        suffix = "." + group
+    files = []
+    for g in groups:
+        files += [os.path.join(g, rel) for rel in coq_sources(os.path.join(COQ, g))]
+    proj = "-Q . OG\n-arg -w -arg %s\n" % COQ_WARN + "\n".join(sorted(files)) + "\n"
+    pf, mf = "_CoqProject" + suffix, "Makefile" + suffix
+    if write_if_changed(os.path.join(COQ, pf), proj) or not os.path.exists(os.path.join(COQ, mf)):
+        rc, out = sh(["coq_makefile", "-f", pf, "-o", mf], cwd=COQ)
         if rc != 0:
             raise RuntimeError("coq_makefile failed: " + out)
+    return mf, groups
 
 
-def coq_make(targets, timeout=1500, jobs=16):
-    """make the given .vo targets (paths relative to coq/) under the tree lock; full .vo build."""
-    with Lock(os.path.join(BUILD, "coq.lock")):
-        coq_sync()
-        cmd = ["make", "-j%d" % jobs] + list(targets)
-        rc, out = sh(cmd, cwd=COQ, timeout=timeout)
-    return rc, out
+class MultiLock:
+    def __init__(self, names):
+        self.locks = [Lock(os.path.join(BUILD, "coq-%s.lock" % n)) for n in sorted(set(names))]
+
+    def __enter__(self):
+        for l in self.locks:
+            l.__enter__()
+        return self
+
+    def __exit__(self, *a):
+        for l in reversed(self.locks):
+            l.__exit__(*a)
+
+
+def coq_make(targets, timeout=1500, jobs=8):
+    """make the given .vo targets (paths relative to coq/); full .vo build. Builds of different properties run
+    concurrently (one Makefile and one lock per top-level directory; Base is built first under its own lock)."""
+    targets = list(targets)
+    group = targets[0].split("/")[0] if targets else None
+    if group is None:
+        mf, groups = coq_sync(None)
+        with MultiLock(groups):
+            return sh(["make", "-f", mf, "-j16"], cwd=COQ, timeout=timeout)
+    with Lock(os.path.join(BUILD, "coq-%s.lock" % group)):
+        mf, groups = coq_sync(group)
+    base = [os.path.join("Base", rel) + "o" for rel in coq_sources(os.path.join(COQ, "Base"))] if os.path.isdir(os.path.join(COQ, "Base")) else []
+    if base:
+        with Lock(os.path.join(BUILD, "coq-Base.lock")):
+            rc, out = sh(["make", "-f", mf, "-j%d" % jobs] + base, cwd=COQ, timeout=timeout)
+        if rc != 0:
+            return rc, out
+    with MultiLock([g for g in groups if g != "Base"]):
+        return sh(["make", "-f", mf, "-j%d" % jobs] + targets, cwd=COQ, timeout=timeout)
 
 
 def theorem_names(vfile):
@@ -246,8 +312,7 @@ class Check:
     def write_gen(self, rel, text):
         """write a translator-generated Coq file under coq/ (only when changed)."""
         if COQ != COQSRC:
-            with Lock(os.path.join(BUILD, "coq.lock")):
-                coq_sync()
+            coq_sync(rel.split("/")[0])
         return write_if_changed(os.path.join(COQ, rel), text)
 
     def coq_build(self, targets, timeout=1500):
@@ -269,13 +334,12 @@ class Check:
         this run, capturing Print Assumptions output. Counts obligations (statements in those files)
         and how many were accepted. Returns True iff all files checked."""
         ok_all = True
-        with Lock(os.path.join(BUILD, "coq.lock")):
-            coq_sync()
+        with Lock(os.path.join(BUILD, "coq-%s.lock" % files[0].split("/")[0])):
             for rel in files:
                 src = os.path.join(COQ, rel)
                 names = theorem_names(src)
                 self.cov["obligations"] += len(names)
-                rc, out = sh(["coqc", "-Q", ".", "OG", "-w", "-notation-overridden,-deprecated-hint-without-locality,-deprecated-instance-without-locality,-ambiguous-paths", rel], cwd=COQ, timeout=timeout)
+                rc, out = sh(["coqc", "-Q", ".", "OG", "-w", COQ_WARN, rel], cwd=COQ, timeout=timeout)
                 if rc == 0:
                     self.cov["discharged"] += len(names)
                 else:
@@ -324,7 +388,7 @@ class Check:
     def coqchk(self, modules, timeout=3000):
         """thorough tier: re-check compiled modules (e.g. ["OG.C14.Props"]) with the independent checker and record
         the axioms it reports."""
-        with Lock(os.path.join(BUILD, "coq.lock")):
+        with Lock(os.path.join(BUILD, "coq-%s.lock" % modules[0].split(".")[1])):
             rc, out = sh(["coqchk", "-silent", "-o", "-Q", ".", "OG"] + list(modules), cwd=COQ, timeout=timeout)
         m = re.search(r"\* Axioms:(.*?)\n\s*\n\* Constants", out, re.S)
         axioms = " ".join(m.group(1).split()) if m else "(unparsed)"
